@@ -26,9 +26,9 @@ def dropNa (f : Frame) : Outcome Frame := do
   let keep ← dropNaKeep f 0 f.nrows
   pure (f.map (fun kc => (kc.1, { kc.2 with data := pick kc.2.data keep })))
 
-def sInt : Str := ofString "int"
-def sFloat64 : Str := ofString "float64"
-def sString : Str := ofString "string"
+def sInt : Str := [105, 110, 116]
+def sFloat64 : Str := [102, 108, 111, 97, 116, 54, 52]
+def sString : Str := [115, 116, 114, 105, 110, 103]
 
 /-- Go `int(x)` for a float64: truncation toward zero (finite values in range). -/
 def truncToInt (q : Rat) : Int := Int.tdiv q.num q.den
@@ -109,9 +109,9 @@ inductive Keep | first | last | none
   deriving DecidableEq, Repr
 
 def parseKeep (s : Str) : Option Keep :=
-  if s = [] ∨ s = ofString "first" then some .first
-  else if s = ofString "last" then some .last
-  else if s = ofString "none" then some .none
+  if s = [] ∨ s = [102, 105, 114, 115, 116] then some .first
+  else if s = [108, 97, 115, 116] then some .last
+  else if s = [110, 111, 110, 101] then some .none
   else Option.none
 
 /-- Indexes kept, given the row keys in row order. -/
